@@ -48,7 +48,7 @@ fn filters(tier: Tier) -> Vec<(String, Vec<Vec<f64>>)> {
 
 pub fn run(tier: Tier) -> i32 {
     let rep = Report::new("C07", tier, "model_checking");
-    rep.set_rule("SCOPE: per (rate in {8k,16k,48k,96k}) x (frame period in {40,80,81,240,480}): all 512 frame triples over {unvoiced, F0 in {20,55.3,123.4,440,rate/2,10(clamps to 20),30k(clamps to 20k)} Hz} followed by the first two symbols in reverse order and 18 repetitions of the third; filters: none plus the listed odd-length low-pass sets (constant and changing per frame); real Vocoder with zero spectrum; oracle: pulse height^2 = linearly gliding period, stationary spacing floor/ceil(T0), unit mean power, unvoiced samples bit-equal to the reference noise run (which is the same stream for frame periods 1, 40, 81, 162, 405 and 3240), LPF output = h*pulses + (delta-h)*noise; a slice longer than the frame period gives the same frame and is not written behind it (both filter families); two vocoders (all pairs of 6 rate/period/low-pass configurations) stepped alternately on one thread produce what each produces alone; distinct = (cell, triple, filter); non-trivial = contains a voiced frame");
+    rep.set_rule("SCOPE: per (rate in {8k,16k,48k,96k}) x (frame period in {40,80,81,240,480}): all 512 frame triples over {unvoiced, F0 in {20,55.3,123.4,440,rate/2,10(clamps to 20),30k(clamps to 20k)} Hz} followed by the first two symbols in reverse order and 18 repetitions of the third; filters: none plus the listed odd-length low-pass sets (constant and changing per frame); real Vocoder with zero spectrum; oracle: pulse height^2 = linearly gliding period, stationary spacing floor/ceil(T0), unit mean power, unvoiced samples bit-equal to the reference noise run (which is the same stream for frame periods 1, 40, 81, 162, 405 and 3240), LPF output = h*pulses + (delta-h)*noise; a slice longer than the frame period gives the same frame and is not written behind it (both filter families); log-F0 values far outside the range (2, 0, -5, the doubles next to the no-data marker, -2e10, -1e300, f64::MIN, -inf; 10, 700, 1e10, 1e300, f64::MAX, +inf) rendered bit-identically to the 20 Hz / 20 kHz limit itself; two vocoders (all pairs of 6 rate/period/low-pass configurations) stepped alternately on one thread produce what each produces alone; distinct = (cell, triple, filter); non-trivial = contains a voiced frame");
     rep.assume("F0 values on the 7-point lattice; T0 is an exact integer for no lattice point (first inter-pulse interval after an onset is ceil(T0)-1 = floor(T0))");
     let rates = [8000usize, 16000, 48000, 96000];
     let fps = [40usize, 80, 81, 240, 480];
@@ -103,6 +103,39 @@ pub fn run(tier: Tier) -> i32 {
                 }
             }
         }
+    }
+    // log-F0 values far outside the range: anything below log 20 Hz other than the exact no-data marker is a voiced frame at
+    // 20 Hz, anything above log 20 kHz a voiced frame at 20 kHz - the output must equal, bit for bit, the output for the
+    // limit value itself, with unvoiced and voiced neighbours
+    {
+        let below = [2.0f64, 0.0, -5.0, -9_999_999_999.999_998, -10_000_000_000.000_002, -2e10, -1e300, f64::MIN, f64::NEG_INFINITY];
+        let above = [10.0f64, 700.0, 1e10, 1e300, f64::MAX, f64::INFINITY];
+        let mut n = 0u64;
+        for (rate, fp) in [(16000usize, 80usize), (48000, 240), (8000, 41)] {
+            for nl in [0usize, 5] {
+                let h: Vec<f64> = (0..nl).map(|i| 0.1 + 0.05 * i as f64).collect();
+                for (vals, limit) in [(&below[..], MIN_LF0), (&above[..], MAX_LF0)] {
+                    let mk = |l: f64| -> Vec<(f64, Vec<f64>)> { [100f64.ln(), l, l, 100f64.ln(), NODATA, l, l, NODATA, l].iter().map(|x| (*x, h.clone())).collect() };
+                    let Ok(want) = run_voc(rate, fp, nl, &mk(limit)) else { continue };
+                    for &l in vals {
+                        n += 1;
+                        rep.eval(1);
+                        rep.cmp(1);
+                        let rp = json!({"rate": rate, "fperiod": fp, "lpf_taps": nl, "frame_lf0": mk(l).iter().map(|f| format!("{:e}", f.0)).collect::<Vec<_>>(), "compared_with_lf0": limit});
+                        match run_voc(rate, fp, nl, &mk(l)) {
+                            Err(p) => rep.violation(format!("panic@{}", site_of(&p)), p, rp),
+                            Ok(got) => {
+                                if !bits_eq(&got, &want) {
+                                    let at = got.iter().zip(&want).position(|(a, b)| a.to_bits() != b.to_bits());
+                                    rep.violation("f0-limit", format!("log-F0 {:e} is not rendered as a voiced frame at the {} limit: output differs from the output for log-F0 {} first at sample {:?}", l, if limit == MIN_LF0 { "20 Hz" } else { "20 kHz" }, limit, at), rp);
+                                }
+                            }
+                        }
+                    }
+                }
+            }
+        }
+        rep.note("out_of_range_lf0_cases", json!(n));
     }
     rep.par_for(cells.len() * 64, 1, "C07 part 1", |job| {
         let (rate, fp) = cells[job / 64];
